@@ -51,6 +51,9 @@ def run(ctx, chk):
     # ------------------------------------------------------------ N1 Drop for Context
     drop_targets = []
     drops = [b for b in fb.bodies(common.DAEMON) if b.name == 'drop' and b.impl_self == ctx_ty]
+    # N10: the notification, the broadcast and the joins happen whatever the log level: nothing the manager, the broadcast or
+    # Context::drop evaluates as an argument of a log macro does part of the work or can panic
+    common.log_hazard_obligations(fb, chk, 'C15.N10', [tmb, bcb] + drops[:1], 'the thread manager, the abort broadcast and Context::drop')
     if not drops:
         chk.missing('C15.N1', 'impl Drop for Context')
     else:
